@@ -173,13 +173,16 @@ def handleDisconnect (s : State) (p : Nat) : State := disconnectLoop p s.n s
 
 /-! ### web-seed bookkeeping (piecepicker.go:165-197) -/
 
-/-- `for i := lo; i < lo+fuel; i++ { if pieces[i].RequestedWebseed != src {panic}; … = nil }`. -/
-def clearRange (k : Nat) : Nat → Nat → State → R State
+/-- `for i := lo; i < lo+fuel; i++ { if pieces[i].RequestedWebseed != src {panic}; … = nil }`.
+`deref`: `WebseedStopAt` formats its message with `RequestedWebseed.URL`, so for a piece without
+a source the assertion dies with a nil dereference instead of its message. -/
+def clearRange (k : Nat) (deref : Bool) : Nat → Nat → State → R State
   | 0, _, s => .ok s
   | fuel + 1, i, s =>
     if i < s.n then
       if (s.pieces i).webseed = some k then
-        clearRange k fuel (i + 1) (setPiece s i { s.pieces i with webseed := none })
+        clearRange k deref fuel (i + 1) (setPiece s i { s.pieces i with webseed := none })
+      else if deref && (s.pieces i).webseed.isNone then .error "nil source"
       else .error "invalid source in piece"
     else .error "index"
 
@@ -188,7 +191,7 @@ def closeWebseed (s : State) (k : Nat) : R State :=
   match s.srcs k with
   | none => .ok s
   | some d => do
-    let s1 ← clearRange k (d.e - d.b) d.b s
+    let s1 ← clearRange k false (d.e - d.b) d.b s
     pure (setSrc s1 k none)
 
 /-- `WebseedStopAt(src, i)`; the Boolean is `closed`. -/
@@ -196,7 +199,7 @@ def webseedStopAt (s : State) (k i : Nat) : R (State × Bool) :=
   match s.srcs k with
   | none => .error "nil downloader"
   | some d => do
-    let s1 ← clearRange k (d.e - i) i s
+    let s1 ← clearRange k true (d.e - i) i s
     let s2 := setSrc s1 k (some { d with e := i })
     if d.c ≥ i then do
       let s3 ← closeWebseed s2 k
